@@ -55,6 +55,10 @@ static std::string run_seq(const std::vector<Op> &ops) {
     }
     if (jwks_item_get(set, c) != nullptr) return "get-at-count-not-null";
     if (jwks_item_get(set, c + 7) != nullptr) return "get-beyond-count-not-null";
+    // out-of-range indices whose low 8 / 16 / 31 / 32 bits are small (an index narrowed on its way selects a real item)
+    static const size_t FAR[] = {256, 65536, (size_t)1 << 31, ((size_t)1 << 31) + 1, (size_t)1 << 32, ((size_t)1 << 32) + 1, (size_t)1 << 63, ((size_t)1 << 63) + 1, (size_t)-1, (size_t)-2};
+    for (size_t f : FAR) if (f >= c) { if (jwks_item_get(set, f) != nullptr) return "get-far-beyond-count-not-null"; if (jwks_item_free(set, f) != 0) return "free-far-beyond-count-not-0"; }
+    if (jwks_item_count(set) != c) return "count-changed-by-out-of-range-free";
     int nb = 0; for (auto &x : m.items) nb += x.bad;
     if (jwks_error_any(set) != m.set_error + nb) return "error-any-differs";
     if ((jwks_error(set) != 0) != (m.set_error != 0)) return "set-error-flag-differs";
@@ -81,7 +85,8 @@ static std::string run_seq(const std::vector<Op> &ops) {
       std::string q;
       if (o.k % O_N == O_FIND_DUP) q = "dup";
       else { std::vector<std::string> kids; for (auto &x : m.items) if (!x.kid.empty()) kids.push_back(x.kid);
-        switch (o.a % 4) { case 0: q = kids.empty() ? "t1" : kids[(o.a / 4) % kids.size()]; break; case 1: q = kids.empty() ? "t" : kids[(o.a / 4) % kids.size()].substr(0, kids[(o.a / 4) % kids.size()].size() - 1); break; case 2: q = "absent"; break; case 3: q = kids.empty() ? "x" : kids[(o.a / 4) % kids.size()] + "x"; break; } }
+        switch (o.a % 6) { case 4: q = (kids.empty() ? std::string("t1") : kids[(o.a / 6) % kids.size()]) + std::string(256, 'x'); break; case 5: q = (kids.empty() ? std::string("t1") : kids[(o.a / 6) % kids.size()]) + std::string(65536, 'x'); break;
+        case 0: q = kids.empty() ? "t1" : kids[(o.a / 4) % kids.size()]; break; case 1: q = kids.empty() ? "t" : kids[(o.a / 4) % kids.size()].substr(0, kids[(o.a / 4) % kids.size()].size() - 1); break; case 2: q = "absent"; break; case 3: q = kids.empty() ? "x" : kids[(o.a / 4) % kids.size()] + "x"; break; } }
       const MItem *want = nullptr; size_t wi = 0; for (size_t i = 0; i < m.items.size(); i++) if (!m.items[i].kid.empty() && m.items[i].kid == q) { want = &m.items[i]; wi = i; break; }
       jwk_item_t *it = jwks_find_bykid(set, q.c_str());
       if ((it != nullptr) != (want != nullptr)) bad = "find-presence"; else if (it && it != jwks_item_get(set, wi)) bad = "find-not-first-match"; break; }
@@ -187,10 +192,11 @@ int main(int argc, char **argv) {
   std::vector<Op> lastfail; std::string lastwhy, lasttrace;
   auto genOp = rc::gen::exec([]() { Op o; o.k = *UNI(0, (int)O_N); o.a = *UNI(0, 1 << 12); return o; });
   bool ok = rc::check("C16: keyring is an ordered list", [&]() {
+    if (v::shrink_exhausted()) return;
     int len = *UNI(1, 61);
     std::vector<Op> ops = *rc::gen::container<std::vector<Op>>(len, genOp);
     std::string why;
-    if (!one(ops, true, &why)) { lastfail = ops; lastwhy = why; lasttrace = TRACE; RC_FAIL(why); }
+    if (!one(ops, true, &why)) { lastfail = ops; lastwhy = why; lasttrace = TRACE; v::fail_seen()++; RC_FAIL(why); }
   });
   flush_batch();
   if (!ok && !lastwhy.empty()) { TRACE = lasttrace; st.violation("C16:" + lastwhy, "keyring disagrees with the list model: " + lasttrace.substr(0, 600), case_json(lastfail)); }
